@@ -324,7 +324,8 @@ struct World
 	std::vector<std::unique_ptr<Session>> good;
 	std::unique_ptr<HostileTcp> hostile;
 	std::unique_ptr<Sink> sink;
-	UTarget ut[2];
+	static int const N_UT = 3; // UDP targets: on T, on U, and on the CLIENT's own node/address (another port than the client's socket)
+	UTarget ut[N_UT];
 	std::map<unsigned, Session*> by_relay_port;
 	std::string desc;
 	int valid_cmd[3] = {0, 0, 0}, hostile_cmd[3] = {0, 0, 0};
@@ -378,11 +379,11 @@ struct World
 		API(sink->acc->bind(ip::tcp::endpoint(T, 9000), ec));
 		API(sink->acc->listen(10, ec));
 		sink->accept_next();
-		for (int i = 0; i < 2; ++i)
+		for (int i = 0; i < N_UT; ++i)
 		{
 			UTarget& t = ut[i];
-			t.idx = i; t.ep = ip::udp::endpoint(i == 0 ? T : U, std::uint16_t(7000 + i));
-			t.s.reset(new ip::udp::socket(i == 0 ? *nt : *nu));
+			t.idx = i; t.ep = ip::udp::endpoint(i == 0 ? T : i == 1 ? U : C, std::uint16_t(7000 + i));
+			t.s.reset(new ip::udp::socket(i == 0 ? *nt : i == 1 ? *nu : *nc));
 			API(t.s->open(ip::udp::v4(), ec));
 			API(t.s->bind(t.ep, ec));
 			API(t.s->non_blocking(true, ec));
@@ -423,7 +424,8 @@ struct World
 		runner.reset();
 		timers.clear();
 		good.clear(); hostile.reset(); sink.reset();
-		ut[0].s.reset(); ut[1].s.reset(); stray.reset();
+		for (auto& t : ut) t.s.reset();
+		stray.reset();
 		proxy.reset();
 		nc.reset(); np.reset(); nt.reset(); nu.reset(); nh.reset();
 		sim.reset();
@@ -796,6 +798,10 @@ void Session::target_got(int tidx, ip::udp::endpoint const& from, std::uint8_t c
 	{
 		std::string cls = "garbage";
 		for (auto& d : dg)
+			if (!d.hostile && d.want_reply && n > d.reply.size() && !d.reply.empty()
+				&& std::equal(d.reply.begin(), d.reply.end(), p + (n - d.reply.size()))) { cls = "reply-delivered-to-a-target"; break; }
+		if (cls == "garbage")
+		for (auto& d : dg)
 		{
 			if (d.hostile) continue;
 			if (d.payload.size() == n && std::equal(p, p + n, d.payload.begin())) { cls = d.target != tidx ? "wrong-target" : "duplicate"; break; }
@@ -809,6 +815,7 @@ void Session::target_got(int tidx, ip::udp::endpoint const& from, std::uint8_t c
 	}
 	hit->seen = true;
 	R().count("udp_forwards_verified");
+	if (tidx == 2) R().count("udp_forwards_verified_target_on_client_address");
 	if (hit->want_reply)
 	{
 		error_code ec;
@@ -848,7 +855,7 @@ void Session::client_got(std::uint8_t const* p, std::size_t n)
 		// traffic of a third party relayed to us is legitimate; a mangled reply of one of our targets is not
 		bool ours = false;
 		if (framed)
-			for (int t = 0; t < 2; ++t)
+			for (int t = 0; t < World::N_UT; ++t)
 			{
 				bool const named = src_name.empty() ? src == w.ut[t].ep.address()
 					: (w.net.names.count(src_name) && !w.net.names[src_name].addrs.empty() && w.net.names[src_name].addrs[0] == w.ut[t].ep.address());
@@ -879,6 +886,7 @@ void Session::client_got(std::uint8_t const* p, std::size_t n)
 		return;
 	}
 	R().count(src_name.empty() ? "udp_replies_verified_addr_header" : "udp_replies_verified_name_header");
+	if (hit->target == 2) R().count("udp_replies_verified_target_on_client_address");
 }
 
 // ---------------------------------------------------------------- verdict at quiescence
@@ -923,21 +931,26 @@ void Session::final_check()
 	if (stage == ST_UDP && !hostile_udp)
 	{
 		int missing = 0, rmissing = 0, total = 0; std::string first;
+		bool same_addr_fwd = false, same_addr_reply = false;
 		for (auto& d : dg)
 		{
 			if (d.hostile) continue;
 			++total;
+			if (!d.seen && d.target == 2) same_addr_fwd = true;
+			if (d.seen && d.want_reply && !d.reply_seen && d.target == 2) same_addr_reply = true;
 			if (!d.seen) { if (!missing++) first = fmt("datagram #%d (%zu bytes to %s)", total, d.payload.size(), d.name.empty() ? "an address" : ("name '" + d.name.substr(0, 20) + "'").c_str()); }
 			else if (d.want_reply && !d.reply_seen) ++rmissing;
 		}
 		if (missing)
 		{
-			viol("udp-not-forwarded", fmt("%d of %d client datagrams never reached their target; first: %s", missing, total, first.c_str()));
+			viol(same_addr_fwd ? "udp-not-forwarded:target-on-client-address" : "udp-not-forwarded", fmt("%d of %d client datagrams never reached their target; first: %s", missing, total, first.c_str()));
 			pass = false;
 		}
 		if (rmissing)
 		{
-			viol("udp-reply-not-returned", fmt("%d replies sent by targets to the relay never reached the client", rmissing));
+			viol(same_addr_reply ? "udp-reply-not-returned:target-on-client-address" : "udp-reply-not-returned"
+				, fmt("%d replies sent by targets to the relay never reached the client%s", rmissing
+					, same_addr_reply ? " (among them replies of the target that shares the client's IP address)" : ""));
 			pass = false;
 		}
 		if (!missing && !rmissing) R().count("udp_sessions_completed");
@@ -1068,13 +1081,13 @@ int pick_name_len(Rng& r, bool tcp, bool shortnames)
 void gen_udp_dgrams(World& w, Session& s, int count)
 {
 	Rng& r = w.rng;
-	std::vector<std::string> names[2];
+	std::vector<std::string> names[World::N_UT];
 	for (int i = 0; i < count; ++i)
 	{
 		Dgram d;
 		d.gap = pick_gap(r);
 		if (r.coin(1, 4)) d.gap = 60000000;
-		d.target = r.choose(2);
+		d.target = r.choose(World::N_UT);
 		ip::udp::endpoint const& tep = w.ut[d.target].ep;
 		Bytes hdr;
 		int const how = r.choose(5);
